@@ -3,6 +3,7 @@ CONSTANTS
   Peer = {}
   Group = {}
   MaxKnown = 0
+  HsDirs = {}
   FNode <- F4
   Overlays <- Iso4
   Joined <- AllJoined
